@@ -26,6 +26,9 @@ package main
 //                          and when an event that reached the output is committed, `lag` input events later;
 //                          avg = 0: the low-memory pool instead (one sync.Pool per size class, plain reset)
 //   (2 ms)                 directive: the collector's coarse clock (xtime) jumps ms milliseconds ahead
+//   (4 ms)                 directive: the case sleeps ms milliseconds (at most 1500)
+//   (6 #key #value)        directive: a key of the in-process redis is set (throttle's redis back end reads its limits there)
+//   (7 #content)           directive: the content of the limits file when the throttle action starts
 //   (3)                    directive: TWO instances of every plugin of the chain, started from ONE config
 //                          object (as the processors of one pipeline are), run the event list concurrently
 //                          on two goroutines
@@ -34,6 +37,8 @@ import (
 	"bytes"
 	"encoding/json"
 	"fmt"
+	"os"
+	"path/filepath"
 	"runtime/debug"
 	"sync"
 	"sync/atomic"
@@ -625,6 +630,18 @@ func (r *chainRun) feed(evs []hx.Sx, hasK8s bool) {
 				xtime.SetNowTime(time.Now().UnixNano() + off)
 				r.stats["clock_advanced"]++
 			}
+			if kind == 6 && len(args) == 2 { // a key of the in-process redis (fakeredis.go)
+				startFakeRedis().set(hx.Str(args[0]), hx.Str(args[1]))
+				r.stats["redis_key_set"]++
+			}
+			if kind == 4 && len(args) == 1 { // the case really lasts that long (throttle reads the wall clock, not xtime)
+				ms := hx.Int(args[0])
+				if ms > 1500 {
+					ms = 1500
+				}
+				time.Sleep(time.Duration(ms) * time.Millisecond)
+				r.stats["slept"]++
+			}
 			continue
 		}
 		f := hx.Items(evx)
@@ -708,6 +725,9 @@ func execChain(cs hx.Sx, stats map[string]int) hx.Sx {
 			if hx.Truth(s[2]) {
 				st.CutOffEventByLimitField = "cutoff"
 			}
+			if len(s) > 3 && hx.Truth(s[3]) { // settings source_name_meta_field (the k8s multiline action reports a skipped line under it)
+				st.SourceNameMetaField = []string{"", "k8s_pod", "log", "nope"}[int(hx.Int(s[3]))&3]
+			}
 		}
 		sp, err := newSpec(typ, hx.Bytes(f[1]), st, k)
 		if err != "" {
@@ -717,6 +737,25 @@ func execChain(cs hx.Sx, stats map[string]int) hx.Sx {
 		if typ == "k8s-multiline" {
 			hasK8s = true
 		}
+		if sp.limitsFile != "" {
+			// (registered before the Stop of the instances: runs after them)
+			defer func(file string) {
+				os.Remove(file)
+				if tmp, _ := filepath.Glob(file + ".*"); len(tmp) > 0 {
+					for _, t := range tmp {
+						os.Remove(t)
+					}
+				}
+			}(sp.limitsFile)
+			for _, e := range evs { // directive (7 #content): what the limits file holds when the action starts
+				if kind, args := directive(e); kind == 7 && len(args) == 1 {
+					_ = os.WriteFile(sp.limitsFile, hx.Bytes(args[0]), 0o600)
+				}
+			}
+		}
+	}
+	if theFakeRedis != nil {
+		theFakeRedis.reset()
 	}
 	clockOffset.Store(0)
 	defer func() {
